@@ -77,7 +77,8 @@ CFG = dict(
           "key, string value, WithGroup name, With attribute, group key and member, error text, AnsiString, Marshaler error / panic text, "
           "TextMarshaler text, inside a Marshaler result that copies invalid UTF-8); long strings of 63 B .. 70 KiB with hostile bytes at "
           "start / middle / end; seeded random attribute trees (depth <= 5, up to 14 attributes, keyed / inline / empty groups at every "
-          "position, LogValuers, all value kinds incl. panicking Marshalers and json.RawMessage with invalid UTF-8) behind chains of With / "
+          "position, LogValuers, all value kinds incl. panicking Marshalers, json.RawMessage with invalid UTF-8, and values implementing several of "
+          "json.Marshaler / error / TextMarshaler / Stringer / AnsiString-like at once with their typed nil pointers) behind chains of With / "
           "WithGroup of length <= 5 with sibling derivations interleaved, five levels, source on/off, through Handler.Handle with hand-built "
           "records (pcs inside functions declared under //line directives with quote, backslash, control, non-ASCII file names) and through "
           "all Logger methods (Debug..Error, Log, LogAttrs, Debugf..Errorf, Logf, Panic, Panicf) called from those functions. "
